@@ -418,6 +418,10 @@ func (wd *World) runOp(op Op) {
 			n++
 		}
 		m := w.Metrics()
+		if op.A == 1 && wd.cfg.Prop == "C19" {
+			// (only where no oracle reads the counters: C19 judges races and crashes)
+			m.Reset()
+		}
 		n += int(m.Submitted()+m.Completed()+m.Successful()+m.Failed()) & 1
 		n += w.NumIdleWorkers() + w.NumConcurrency() + w.NumPending() + w.NumProcessing()
 		c.Str = w.Status()
